@@ -100,7 +100,9 @@ RDSET_RULE = ("RdataSetOwned::from_iter on 1..8 RDATAs drawn with repetition fro
 CHECK = {
     "property": "C20",
     "props": "Props/C20.v",
-    "theorems": ["c20_add_result", "c20_add_ok_iff", "c20_add_err_kind", "c20_iter_by_node",
+    "theorems": ["c20_req_real_is_equals", "c20_add_result_real", "c20_iter_by_node_real", "c20_iter_by_rrset_real",
+                 "c20_iter_names_spelled_real", "c20_soa_ns_real", "c20_rrset_is_c19_set", "c20_stored_rdata_real",
+                 "c20_add_result", "c20_add_ok_iff", "c20_add_err_kind", "c20_iter_by_node",
                  "c20_iter_by_rrset", "c20_iter_names_spelled", "c20_iter_state_machine", "c20_soa_ns",
                  "c20_rdataset_buffer", "c20_rdataset_insert"],
     "allowed_axioms": [],
@@ -128,9 +130,10 @@ CHECK = {
         "tools/gen/zoneconsts.py re-extracts Type::{A,NS,CNAME,SOA,MX,AAAA}, Class::IN and Label::asterisk() from the source",
         "model abstractions (differentially tested, not proved): Name as list of labels, HashMap as association list "
         "(iteration order unspecified: compared as sorted sets), binary_search_by_key as ordered scan of the sorted Vec",
-        "Rdata::equals is a parameter of model and spec, assumed transitive; the runner uses req_simple (exact on the generated RDATA)",
+        "Rdata::equals is no longer a parameter: the *_real theorems use Model/RdataM.v equals (C19: total, equal to the RFC "
+        "characterisation spec_equals) on the model side and spec_equals on the specification side; the runner runs exactly these",
     ],
-    "assumptions": ["Rdata::equals is transitive for every (class, type)",
+    "assumptions": ["every RDATA is a string of octets (elements < 256: the u8 type) — the domain of C19's theorems",
                     "zones are built only by HashMapTreeZone::new and add"],
 }
 
@@ -138,11 +141,13 @@ MANIFEST = {
     "level_text": ("Coq theorems (no axioms): for every add history, add returns exactly the specification's verdict "
                    "(owner in zone, class, TTL of the existing RRset) and a rejected add returns the identical tree; "
                    "iter_by_node yields every existing name (empty non-terminals included) exactly once with its RRsets, "
-                   "iter_by_rrset exactly the de-duplicated RRsets of the accepted records once each, and soa()/ns() agree "
+                   "iter_by_rrset exactly the RRsets of the accepted records once each, de-duplicated by the real Rdata::equals "
+                   "(= nodup_by of C19's RFC characterisation: case-insensitive embedded names on valid RDATA, octet-wise otherwise), "
+                   "and soa()/ns() agree "
                    "with the apex item. Model tied to the code by a differential run over 4000 add histories with the full "
                    "iteration after every step."),
     "level_note": ("Trusted: Coq kernel, extraction, the hand-written model's correspondence to the Rust code (differentially "
-                   "tested), Rdata::equals abstract and transitive."),
+                   "tested). Rdata::equals is the proved model of C19 (real instance), not a parameter."),
     "technique": "machine-checked proof in Coq (abstraction invariant tree <-> flat accepted-record list, induction over the nested tree) + model/implementation correspondence check",
     "design_ref": "DESIGN.md §4 C20",
 }
